@@ -185,9 +185,9 @@ Example C07_history_inv : RepoInv (run repaired init history).
 Proof. apply C07_inv_run, oracles_okb_ok. vm_compute. reflexivity. Qed.
 
 Example C07_repaired_refuses :
-  step repaired (run repaired init prelude) (RMerge (U u2) true [U u2; U u3] u4) = (run repaired init prelude, Fail) /\
-  step repaired (run repaired init prelude) (RMerge (U u2) true [U u2; U u2] u4) = (run repaired init prelude, Fail) /\
-  step repaired (run repaired init prelude) (RTag (U u2) u1) = (run repaired init prelude, Fail) /\
-  step repaired (run repaired init prelude) (RTag (U u2) "") = (run repaired init prelude, Fail) /\
-  step repaired init (RNewRepo (Some "xa") "" u1) = (init, Fail).
+  snd (step repaired (run repaired init prelude) (RMerge (U u2) true [U u2; U u3] u4)) = Fail /\
+  snd (step repaired (run repaired init prelude) (RMerge (U u2) true [U u2; U u2] u4)) = Fail /\
+  snd (step repaired (run repaired init prelude) (RTag (U u2) u1)) = Fail /\
+  snd (step repaired (run repaired init prelude) (RTag (U u2) "")) = Fail /\
+  snd (step repaired init (RNewRepo (Some "xa") "" u1)) = Fail.
 Proof. exact repaired_refuses_witnesses. Qed.
